@@ -15,6 +15,7 @@ import (
 	"github.com/renbou/grpcbridge/grpcadapter"
 	httprule "github.com/renbou/grpcbridge/internal/httprule/gwbased"
 	"github.com/renbou/grpcbridge/internal/syncset"
+	"github.com/renbou/grpcbridge/internal/verifhook"
 	"google.golang.org/grpc/codes"
 	"google.golang.org/grpc/status"
 )
@@ -203,6 +204,8 @@ func (prw *PatternRouterWatcher) UpdateDesc(desc *bridgedesc.Target) {
 		return
 	}
 
+	verifhook.Point("pattern.update.afterCheck", prw.target)
+
 	routes := buildPatternRoutes(desc, prw.logger)
 	prw.pr.routes.addTarget(desc, routes)
 }
@@ -217,6 +220,8 @@ func (prw *PatternRouterWatcher) Close() {
 	if !prw.closed.CompareAndSwap(false, true) {
 		panic("grpcbridge: PatternRouterWatcher.Close() called multiple times")
 	}
+
+	verifhook.Point("pattern.close.afterFlag", prw.target)
 
 	// Fully remove the target's routes, only then mark the watcher as closed.
 	prw.pr.routes.removeTarget(prw.target)
